@@ -589,6 +589,9 @@ def c19(tier):
         for part in ([traits[:cut], traits[cut:]] if nl == 2 else [traits]):
             lists.append({"traits": [{"t": t, "dump": rnd.random() < 0.35, "b": rnd.choice(["", "", "", "bound()", "bound(..)", "bound(u8: Copy)", "bound(u8: Copy, ..)"])} for t in part],
                           "dump": rnd.random() < 0.25})
+        # a list that names no trait at all (only `dump`, or `dump` next to a shared bound): it shares its flags with nobody
+        if rnd.random() < 0.2:
+            lists.insert(rnd.randrange(len(lists) + 1), {"traits": [], "dump": True, "bare": rnd.choice(["", "", "bound(..)", "bound(u8: Copy, ..)"])})
         cases.append((kind, src, lists))
     # every ordered pair of traits, both dumped (per trait / through the shared flag), on a single-field struct and on an enum
     for kind, src, pool in (("struct", "struct X(u8);", ALL_TRAITS), ("enum", "enum X { #[default] A, B(u8) }", ENUM_TRAITS)):
@@ -616,6 +619,8 @@ def c19(tier):
                 if with_dump and x["dump"]:
                     args.append("dump")
                 xs.append("%s(%s)" % (x["t"], ", ".join(args)) if args else x["t"])
+            if L.get("bare"):
+                xs.append(L["bare"])
             if with_dump and L["dump"]:
                 xs.append("dump")
             parts.append(", ".join(xs))
